@@ -133,3 +133,13 @@ class SNM(TextualDataType):
     def __init__(self, value, highlights=None, validation_level=None):
         super(SNM, self).__init__(value, None, highlights, validation_level)
 
+
+class WD(TextualDataType):
+    """
+    Datatype class for withdraw fields. It extends :class:`hl7apy.base_datatypes.TextualDataType` and the parameters
+    are the same of the superclass
+
+    :attr:`max_length` is 199
+    """
+    def __init__(self, value, highlights=None, validation_level=None):
+        super(WD, self).__init__(value, 199, highlights, validation_level)
